@@ -105,18 +105,31 @@ Proof. exact introspect_refs_resolve. Qed.
     field that has a default, so reading the literal back adds nothing.  [enums_ok], [inputs_ok]:
     enum value names and input field names are GraphQL names (shallowValidate).
 
-    FULL STATEMENT, proved except for one kind of leaf:
+    Floats: the text Go prints for a finite float64 — optional '-', digits, optional '.digits',
+    optional 'e', sign, digits — is always an IntValue or FloatValue literal
+    ([C10_go_float_text_is_literal]), so a Float default of any value is inside the theorem as far
+    as reading the text back goes.
+
+    FULL STATEMENT, proved except for the value of a float's digits:
       forall S v t, enums_ok S -> inputs_ok S -> default_conforms S v t = true -> (strings of v within
       U+0000..U+FFFF without surrogates) -> exists txt, marshal S v t = MOk txt /\ literal_denotes S t txt v = true.
-    Missing: Float values that are not integral ([printable] demands that the text Go printed is
-    the decimal of an integer: strconv's shortest-round-trip formatting is not modelled).  For
-    those the clause is evaluated by the oracle on every generated default — the text Go printed
-    must parse as a Float literal whose exact rational value rounds to the configured float64
-    ([rounds_to]) — and end to end with the real parser. *)
+    Missing: that the decimal strconv chooses for a float64 rounds back to that float64
+    (shortest-round-trip digit generation is not modelled).  [printable] carries it as a premise
+    for each Float in the value ([float_lit_rounds (the literal read) m e = true], an exact rational
+    comparison); the check evaluates exactly this premise on every generated default, and the
+    real parser + coercion re-read the text. *)
 Theorem C10_default_roundtrip_partial : forall (S : schema), enums_ok S -> inputs_ok S -> forall v t,
   default_conforms S v t = true -> printable v ->
   exists txt, marshal S v t = MOk txt /\ literal_denotes S t txt v = true.
 Proof. exact default_roundtrip_values. Qed.
+
+(** every text in the format encoding/json / strconv print a finite float in is a number literal
+    of the grammar: [lex_number] reads all of it and returns the integer ([LInt]) when there is
+    neither fraction nor exponent, else the exact decimal [LFloat n e10] = n * 10^e10 *)
+Theorem C10_go_float_text_is_literal : forall neg ip fp ex rest,
+  go_float_ok ip fp ex -> follow_ok rest ->
+  lex_number (go_float_text neg ip fp ex ++ rest) = Some (go_float_lit neg ip fp ex, rest).
+Proof. exact lex_number_go. Qed.
 
 (** KNOWN (key default-string-astral): the restriction of [printable] to U+0000..U+FFFF cannot be
     dropped.  encoding/json leaves an astral character as its four UTF-8 bytes, the lexer's source
@@ -246,6 +259,7 @@ Print Assumptions C10_typeref_complete_at_depth.
 Print Assumptions C10_deep_chain_truncated_refuted.
 Print Assumptions C10_introspect_refs_resolve.
 Print Assumptions C10_default_roundtrip_partial.
+Print Assumptions C10_go_float_text_is_literal.
 Print Assumptions C10_default_astral_refuted.
 Print Assumptions C10_rebuild_same_verdicts_partial.
 Print Assumptions C10_rebuild_same_lookups.
